@@ -19,7 +19,8 @@ type GenFile struct {
 type Case struct {
 	Files []GenFile
 	Flags []string // e.g. -row .name
-	Args  []string // file arguments, possibly label=path or repeated
+	Args  []string // file arguments, possibly label=path or repeated, or "-" (standard input)
+	Stdin string   // name of the generated file whose content is fed to standard input for "-"
 	Tags  map[string]bool
 }
 
@@ -322,6 +323,15 @@ func genCase(r *hx.Rand, big bool) *Case {
 			c.Args = append(c.Args, n)
 		}
 	}
+	if r.Chance(1, 12) {
+		// one input comes from standard input: `benchstat old.txt -`
+		i := r.Intn(len(c.Args))
+		if !strings.Contains(c.Args[i], "=") {
+			c.Stdin = c.Args[i]
+			c.Args[i] = "-"
+			c.tag("stdin")
+		}
+	}
 	if r.Chance(1, 8) {
 		c.Args = append(c.Args, c.Files[r.Intn(len(c.Files))].Name)
 		c.tag("duppath")
@@ -442,6 +452,12 @@ func corpusCases() []*Case {
 		mk(nil, "Unit widgets assume=exact\nBenchmarkA 1 0 widgets\nBenchmarkA 1 -0 widgets\n"),
 		mk(nil, "Unit widgets assume=exact\nBenchmarkA 1 -0 widgets\nBenchmarkA 1 0 widgets\n"),
 		mk(nil, "BenchmarkA 1 0 widgets\nBenchmarkA 1 -0 widgets\nBenchmarkA 1 0 widgets\n", "BenchmarkA 1 -0 widgets\nBenchmarkA 1 0 widgets\n"),
+		// standard input as one of the inputs
+		func() *Case {
+			c := mk(nil, rep("BenchmarkA 1 10 ns/op", 3), rep("BenchmarkA 1 12 ns/op", 3))
+			c.Args[1], c.Stdin = "-", "b.txt"
+			return c
+		}(),
 		// exact assumption
 		mk([]string{"-col", "note"}, "Unit text-bytes assume=exact\nnote: before\n\nBenchmarkSize 1 100 text-bytes\nBenchmarkN 1 100 text-bytes\nBenchmarkN 1 101 text-bytes\n\nnote: after\n\nBenchmarkSize 1 105 text-bytes\nBenchmarkN 1 101 text-bytes\n"),
 	}
